@@ -141,17 +141,48 @@ def check_program(ctx, prog, script, rng, n_data=2, case_extra=None):
     # ---- normalised equation text ------------------------------------------------------
     if outcome == 'ok':
         check_equation_texts(ctx, prog, symbols, ex, span, names, rng, case)
+    # ---- a symbol list re-ordered by the caller: equations run in *that* symbol-list order ------
+    carrying = [s for s in symbols if s.code is not None and s.equation is not None]
+    if outcome == 'ok' and len(carrying) > 1 and rng.random() < 0.35:
+        shuffled = list(symbols)
+        rng.shuffle(shuffled)
+        if [s for s in shuffled if s.code is not None] != carrying:
+            blocks = [st for st in prog.stmts if isinstance(st, gen.Block)]
+            by_name = {}
+            for e in prog.equations():
+                by_name.setdefault(e.lhs.name, e)
+            order, bi = [], 0
+            verb_syms = [s for s in symbols if s.name is None]
+            for s in shuffled:
+                if s.code is None or s.equation is None:
+                    continue
+                if s.name is None:
+                    order.extend(blocks[verb_syms.index(s)].eqs if s in verb_syms and verb_syms.index(s) < len(blocks) else [])
+                else:
+                    order.append(by_name[s.name])
+            try:
+                Model2 = fsic.build_model(shuffled)
+            except Exception as e:
+                ctx.violation('build-failed', f'build_model on a re-ordered symbol list raised {type(e).__name__}: {e}', case)
+                return 'build-failed'
+            ctx.count('reordered_symbol_lists')
+            names2 = list(Model2.NAMES)
+            data0 = ref.make_data(names2, n, rng, 'positive')
+            for p in ref.feasible_positions(n, lags, leads)[:2]:
+                r = one_pass(ctx, Model2, prog, span, names2, data0, p, p, dict(case, symbol_order=[s.name for s in shuffled]), order=order)
+                if r != 'ok':
+                    return r
     return outcome
 
 
-def one_pass(ctx, Model, prog, span, names, data0, p, t, case):
+def one_pass(ctx, Model, prog, span, names, data0, p, t, case, order=None):
     n = len(span)
     model = Model(list(span) if not isinstance(span, range) else span)
     for nm in names:
         model.__dict__['_' + nm][:] = data0[nm]
     log = rec.install(model)
     rdata = {k: v.copy() for k, v in data0.items()}
-    refrun = ref.RefRun(prog, rdata, span_labels=list(span))
+    refrun = ref.RefRun(prog, rdata, span_labels=list(span), order=order)
     with ref.quiet():
         try:
             want = refrun.evaluate(p)
